@@ -7,8 +7,11 @@ path (benign and equally named for the schedule half, built from the quantifier'
 components for the input half), its size and the instants of every start-up step (start offset,
 the uploader's queue_delay / f_delay / chunk_delay); the executor delays (range + 'slow' rules for
 the exists / makedirs / open jobs) that set the width of the check-then-create window; the
-pre-existing contents of the download directory; and the strategy chain (any ordered subset of the
-three shipped strategies, set through the public ``client.shares.naming_strategies``).
+pre-existing contents of the download directory; and the strategy chain (the library default, or any
+ordered subset of the three shipped strategies set through the public ``client.shares.naming_strategies``).
+Facts carry ``dedupe`` (number-duplicates runs last, after the default strategy) and ``default`` (a
+name-giving strategy is in the chain) so that verdicts about chains that cannot keep the promise by
+construction are told apart from defects of the strategies and of the transfer manager.
 
 Oracle (property text only):
  * after every loop iteration the local paths of alice's downloads in INITIALIZING / DOWNLOADING
@@ -45,8 +48,9 @@ INFO = {
              'names) x start-up timing (start offset, queue_delay, f_delay, chunk_delay per uploader, five latency regimes) x '
              'executor delays (range + slow rules on the exists / makedirs / open jobs, i.e. the width of the check-then-create '
              'window) x pre-existing download-directory contents (name, numbered names with gaps, look-alikes, a directory with '
-             'the name, entries in the kept sub-directory; <= 12) x strategy chain (all 15 ordered non-empty subsets of default / '
-             'keep-directory / number-duplicates, sound chains weighted). The product chain x input class x {empty, name taken} '
+             'the name, entries in the kept sub-directory; <= 12) x strategy chain (the library default left untouched, or one of '
+             'the 15 ordered non-empty subsets of default / keep-directory / number-duplicates set through '
+             'client.shares.naming_strategies; sound chains weighted). The product chain x input class x {empty, name taken} '
              'is enumerated in the corpus. non-trivial = a download chose its path while another chosen path was not created '
              'yet, or a duplicate number was applied, or an adversarial component was present; distinct = signature over (chain, '
              'per-download input class and outcome class, window overlap, pre-existing classes, violations). '
@@ -152,7 +156,7 @@ def adversarial(remote: str) -> bool:
     return (any(c in ('.', '..', '...') or c.startswith('@@') and i > 0 or (len(c) > 1 and c[1] == ':' and i > 0)
                 for i, c in enumerate(comps))
             or not comps or remote.startswith(ABS) or raw[:1] in ('\\', '/') or raw[-1:] in ('\\', '/')
-            or '\\\\' in raw or '//' in raw or '/' in raw or len(comps[-1]) > 150 or not comps[-1].isascii())
+            or '\\\\' in raw or '//' in raw or ('/' in raw and '\\' in raw) or len(comps[-1]) > 150 or not comps[-1].isascii())
 
 
 def safe_remote(remote: str) -> bool:
@@ -170,44 +174,37 @@ def safe_remote(remote: str) -> bool:
 
 
 def make_safe(remote: str) -> str:
-    while '\\/' in remote:
-        remote = remote.replace('\\/', '\\\\')
+    """Generator side of safe_remote: no leading '/', no '/' right after a backslash (either would be an absolute path for
+    a splitter that only knows one separator), at most MAX_DOTDOT '..' components (the last ones are kept)."""
     if remote.startswith('/'):
         remote = '\\' + remote[1:]
-        while '\\/' in remote:
-            remote = remote.replace('\\/', '\\\\')
-    comps_dd = 0
-    if sum(1 for c in spec_components(remote) if c.strip() == '..') > MAX_DOTDOT:
-        out = []
-        # keep the last MAX_DOTDOT '..' components, neutralise the others
-        i = len(remote)
-        pieces = []
-        cur = ''
-        for ch in remote:
-            if ch in '\\/':
-                if cur:
-                    pieces.append(cur)
-                    cur = ''
-                pieces.append(ch)
-            else:
-                cur += ch
-        if cur:
-            pieces.append(cur)
-        for p in reversed(pieces):
-            if p.strip() == '..':
-                comps_dd += 1
-                if comps_dd > MAX_DOTDOT:
-                    p = 'dd'
-            out.append(p)
-        remote = ''.join(reversed(out))
-    return remote
+    while '\\/' in remote:
+        remote = remote.replace('\\/', '\\\\')
+    pieces, cur = [], ''
+    for ch in remote:
+        if ch in '\\/':
+            if cur:
+                pieces.append(cur)
+                cur = ''
+            pieces.append(ch)
+        else:
+            cur += ch
+    if cur:
+        pieces.append(cur)
+    seen = 0
+    for i in range(len(pieces) - 1, -1, -1):
+        if pieces[i].strip() == '..':
+            seen += 1
+            if seen > MAX_DOTDOT:
+                pieces[i] = 'dd'
+    return ''.join(pieces)
 
 
 def safe_rel(rel: str) -> bool:
-    if not isinstance(rel, str) or not rel or rel.startswith('/') or '\x00' in rel or '\\' in rel and False:
+    """Pre-existing entries: plain relative paths below the download directory."""
+    if not isinstance(rel, str) or not rel or rel.startswith('/') or '\x00' in rel:
         return False
-    parts = rel.split('/')
-    return all(p not in ('', '.', '..') for p in parts)
+    return all(p not in ('', '.', '..') for p in rel.split('/'))
 
 
 # ----------------------------------------------------------------------------- generator
